@@ -48,6 +48,7 @@ import (
 	"strings"
 	"testing"
 
+	"github.com/btcsuite/btcwallet/walletdb"
 	"github.com/lightningnetwork/lnd/channeldb"
 	"github.com/lightningnetwork/lnd/chanstate"
 	"github.com/lightningnetwork/lnd/input"
@@ -73,8 +74,260 @@ type c02Ctx struct {
 	wRevoke  [2]int
 	wFee     int
 	wDeliver [2]int
+	// crash points = committed write transactions (see c02Backend)
+	raw  [2]*channeldb.ChannelStateDB
+	wb   [2]*c02Backend
+	tx0  [2]int
+	imgs [2][]string
+	// references of the node's own settles/fails not yet covered by a signature:
+	// the next successful SignNextCommitment acknowledges them together with its
+	// commit diff (createCommitDiff collects SourceRef/DestRef of the updates
+	// committed at the new height); a restart drops them with the updates
+	pendSrc [2][]channeldb.AddRef
+	pendDst [2][]channeldb.SettleFailRef
+
 	pProbe   int // probe after a step with probability 1/pProbe (1 = always)
 	pBogus   int // a dishonest revocation before an honest one with probability 1/pBogus
+}
+
+// c02Backend wraps the kvdb backend of one node's channel database: it counts
+// the write transactions that COMMIT and calls `hook` right after each commit,
+// i.e. at every instant at which a crash leaves a new durable state.  The
+// database content at that instant is the crash image: it is re-fetched through
+// the unwrapped store and rebuilt with NewLightningChannel inside the hook,
+// while the API call that issued the transaction is still in progress.
+type c02Backend struct {
+	walletdb.DB
+	n    int
+	hook func(n int)
+}
+
+func (b *c02Backend) Update(f func(tx walletdb.ReadWriteTx) error, reset func()) error {
+	err := b.DB.Update(f, reset)
+	if err == nil {
+		b.n++
+		if b.hook != nil {
+			b.hook(b.n)
+		}
+	}
+	return err
+}
+
+// wrapDB routes all channel state writes of node x through a c02Backend.
+func (c *c02Ctx) wrapDB(t *testing.T, x int) {
+	st := c.p.Ch[x].channelState
+	raw, ok := st.Db.(*channeldb.ChannelStateDB)
+	if !ok {
+		t.Fatalf("unexpected channel store type %T", st.Db)
+	}
+	wb := &c02Backend{DB: raw.GetParentDB().Backend}
+	wdb, err := channeldb.CreateWithBackend(wb)
+	if err != nil {
+		t.Fatalf("wrap db: %v", err)
+	}
+	st.Db = wdb.ChannelStateDB()
+	c.raw[x], c.wb[x] = raw, wb
+}
+
+// image = the durable state of node x right after its k-th write transaction
+// of the call in progress: the channel is re-fetched (unwrapped store), rebuilt
+// with NewLightningChannel and the database content is dumped.  Every line is
+// prefixed with "M ".
+func (c *c02Ctx) image(x, k int) string {
+	var sb strings.Builder
+	name := c02Name(x)
+	old := c.p.Ch[x].channelState
+	var oc *chanstate.OpenChannel
+	if chans, err := c.raw[x].FetchOpenChannels(old.IdentityPub); err == nil {
+		for _, o := range chans {
+			if o.FundingOutpoint == old.FundingOutpoint {
+				oc = o
+			}
+		}
+	}
+	if oc == nil {
+		fmt.Fprintf(&sb, "M P %s tx=%d => fetcherr\n", name, k)
+		return sb.String()
+	}
+	_, res := c.newChan(x, oc)
+	fmt.Fprintf(&sb, "M P %s tx=%d => %s\n", name, k, res)
+	for _, l := range strings.Split(strings.TrimRight(c.diskString(x, oc), "\n"), "\n") {
+		sb.WriteString("M ")
+		sb.WriteString(l)
+		sb.WriteString("\n")
+	}
+	c.stats["crash_images"]++
+	return sb.String()
+}
+
+// txBegin / txEnd bracket one API call of node x: every write transaction the
+// call commits is counted and its crash image is taken.  The number of
+// transactions is printed (`WT`); the model attributes exactly one transaction
+// to a successful Sign / Revoke / ReceiveRevocation / link operation and none to
+// anything else, the driver compares.  If the call committed more than one
+// transaction, the images after each of them are printed: a crash between two of
+// them is a crash point the per-call probes never see.
+func (c *c02Ctx) txBegin(x int) {
+	w := c.wb[x]
+	if w == nil {
+		return
+	}
+	c.tx0[x] = w.n
+	c.imgs[x] = nil
+	w.hook = func(n int) {
+		c.imgs[x] = append(c.imgs[x], c.image(x, n-c.tx0[x]))
+	}
+}
+
+func (c *c02Ctx) txEnd(x int, op, res string) {
+	w := c.wb[x]
+	if w == nil {
+		return
+	}
+	w.hook = nil
+	n := w.n - c.tx0[x]
+	c.emit("WT %s op=%s res=%s n=%d\n", c02Name(x), op, strings.SplitN(res, ":", 2)[0], n)
+	c.stats[fmt.Sprintf("write_txs_%s_%d", strings.SplitN(op, "_", 2)[0], n)]++
+	if n >= 2 {
+		for _, img := range c.imgs[x] {
+			c.w.WriteString(img)
+		}
+		c.stats["calls_with_several_write_txs"]++
+	}
+	c.imgs[x] = nil
+}
+
+func c02AddRefs(rs []channeldb.AddRef) string {
+	if len(rs) == 0 {
+		return "-"
+	}
+	var parts []string
+	for _, r := range rs {
+		parts = append(parts, fmt.Sprintf("%d:%d", r.Height, r.Index))
+	}
+	return strings.Join(parts, ",")
+}
+
+func c02SfRefs(own lnwire.ShortChannelID, rs []channeldb.SettleFailRef) string {
+	if len(rs) == 0 {
+		return "-"
+	}
+	var parts []string
+	for _, r := range rs {
+		if r.Source == own {
+			parts = append(parts, fmt.Sprintf("%d:%d", r.Height, r.Index))
+		} else {
+			parts = append(parts, fmt.Sprintf("x%d:%d", r.Height, r.Index))
+		}
+	}
+	return strings.Join(parts, ",")
+}
+
+// runAct = c01Sched.runAct bracketed by txBegin/txEnd.  After a successful sign
+// the acknowledgements the durable commit diff carries are printed (`LS`).
+func (c *c02Ctx) runAct(x int, a c01Act) string {
+	c.txBegin(x)
+	res := c.s.runAct(x, a)
+	c.txEnd(x, a.Kind, res)
+	if a.Kind == "sign" {
+		// printed also for a failed call: these are the acknowledgements the
+		// commit diff of THIS call carries
+		st := c.p.Ch[x].channelState
+		c.emit("LS %s res=%s addacks=%s sfacks=%s\n", c02Name(x), strings.SplitN(res, ":", 2)[0],
+			c02AddRefs(c.pendSrc[x]), c02SfRefs(st.ShortChannelID, c.pendDst[x]))
+		if res == "ok" {
+			if len(c.pendSrc[x]) > 0 {
+				c.stats["signs_with_add_acks"]++
+			}
+			c.pendSrc[x], c.pendDst[x] = nil, nil
+		}
+	}
+	return res
+}
+
+func (c *c02Ctx) runDeliver(d int) string {
+	x := 1 - d
+	kind := c.p.Q[d][0].kind
+	c.txBegin(x)
+	res := c.s.runDeliver(d)
+	c.txEnd(x, "recv_"+kind, res)
+	return res
+}
+
+// resolve settles / fails the incoming HTLC `idx` of node x the way a link does
+// for a forwarded or exit-hop HTLC: with the reference to the add in the
+// node's forwarding package (and sometimes a reference to a settle/fail entry of
+// a package), so that the acknowledgement travels with the next commit diff.
+// Prints the same lines as c01Sched.runAct.
+func (c *c02Ctx) resolve(x int, kind string, idx uint64) string {
+	ch := c.p.Ch[x]
+	var (
+		src *channeldb.AddRef
+		dst *channeldb.SettleFailRef
+	)
+	if oc, err := c.fetch(x); err == nil && c.r.Intn(4) != 0 {
+		pkgs, _ := oc.LoadFwdPkgs()
+		var sfc []channeldb.SettleFailRef
+		for _, p := range pkgs {
+			for i := range p.Adds {
+				if m, ok := p.Adds[i].UpdateMsg.(*lnwire.UpdateAddHTLC); ok && m.ID == idx {
+					r := p.SourceRef(uint16(i))
+					src = &r
+				}
+			}
+			for i := range p.SettleFails {
+				if !p.SettleFailFilter.Contains(uint16(i)) {
+					sfc = append(sfc, p.DestRef(uint16(i)))
+				}
+			}
+		}
+		if len(sfc) > 0 && kind != "malformed" && c.r.Intn(3) == 0 {
+			r := sfc[c.r.Intn(len(sfc))]
+			dst = &r
+		}
+	}
+	res := "ok"
+	c.txBegin(x)
+	func() {
+		defer c01Recover(&res)
+		var err error
+		switch kind {
+		case "settle":
+			pre := [32]byte{}
+			if pd := ch.updateLogs.Remote.lookupHtlc(idx); pd != nil {
+				pre = c.p.preimage[c.p.hashID[pd.RHash]]
+			}
+			err = ch.SettleHTLC(pre, idx, src, dst, nil)
+			if err == nil {
+				c.p.Q[x] = append(c.p.Q[x], c01Msg{kind: "settle", idx: idx, preimage: pre})
+			}
+		case "fail":
+			err = ch.FailHTLC(idx, []byte("c01"), src, dst, nil)
+			if err == nil {
+				c.p.Q[x] = append(c.p.Q[x], c01Msg{kind: "fail", idx: idx})
+			}
+		default:
+			err = ch.MalformedFailHTLC(idx, lnwire.CodeInvalidOnionKey, [32]byte{1}, src)
+			if err == nil {
+				c.p.Q[x] = append(c.p.Q[x], c01Msg{kind: "fail", idx: idx})
+			}
+		}
+		res = c01ErrClass(err)
+	}()
+	c.s.emit(fmt.Sprintf("%s %s idx=%d => %s q=%d,%d\n", c02Name(x), kind, idx, res, len(c.p.Q[0]), len(c.p.Q[1])))
+	c.s.dump(x)
+	c.txEnd(x, kind, res)
+	c.stats["op_"+kind]++
+	c.stats["res_"+strings.SplitN(res, ":", 2)[0]]++
+	if res == "ok" && src != nil {
+		c.pendSrc[x] = append(c.pendSrc[x], *src)
+		c.stats["resolve_with_source_ref"]++
+	}
+	if res == "ok" && dst != nil {
+		c.pendDst[x] = append(c.pendDst[x], *dst)
+		c.stats["resolve_with_dest_ref"]++
+	}
+	return res
 }
 
 func c02Name(x int) string { return string(rune('A' + x)) }
@@ -269,6 +522,10 @@ func c02Ids(us []channeldb.LogUpdate) string {
 
 // dumpDisk prints everything a restart reads, from a freshly fetched handle.
 func (c *c02Ctx) dumpDisk(x int, oc *chanstate.OpenChannel) {
+	c.w.WriteString(c.diskString(x, oc))
+}
+
+func (c *c02Ctx) diskString(x int, oc *chanstate.OpenChannel) string {
 	var sb strings.Builder
 	name := c02Name(x)
 	peer := 1 - x
@@ -378,7 +635,7 @@ func (c *c02Ctx) dumpDisk(x int, oc *chanstate.OpenChannel) {
 			int(p.State), c02Filter(p.FwdFilter), c02Filter(p.AckFilter), c02Filter(p.SettleFailFilter))
 	}
 	sb.WriteString("\n")
-	c.w.WriteString(sb.String())
+	return sb.String()
 }
 
 // c02Filter prints enc/full/bits of a PkgFilter; every call is guarded.
@@ -488,6 +745,7 @@ func (c *c02Ctx) linkTick(x int, probed bool) {
 	case k < 2:
 		var idx []string
 		filter := p.FwdFilter
+		c.txBegin(x)
 		res := guarded(func() error {
 			for i := range p.Adds {
 				if c.r.Intn(5) != 0 {
@@ -506,6 +764,7 @@ func (c *c02Ctx) linkTick(x int, probed bool) {
 			is = strings.Join(idx, ",")
 		}
 		c.emit("L %s op=setfwd h=%d idx=%s => %s passed=%s\n", name, p.Height, is, res, c02Filter(filter))
+		c.txEnd(x, "link_setfwd", res)
 		c.stats["link_setfwd"]++
 	case k < 4:
 		var refs []channeldb.AddRef
@@ -520,8 +779,10 @@ func (c *c02Ctx) linkTick(x int, probed bool) {
 		if len(refs) == 0 {
 			return
 		}
+		c.txBegin(x)
 		res := guarded(func() error { return live.AckAddHtlcs(refs...) })
 		c.emit("L %s op=ackadd refs=%s => %s\n", name, strings.Join(rs, ","), res)
+		c.txEnd(x, "link_ackadd", res)
 		c.stats["link_ackadd"]++
 	default:
 		var refs []channeldb.SettleFailRef
@@ -536,10 +797,15 @@ func (c *c02Ctx) linkTick(x int, probed bool) {
 		if len(refs) == 0 {
 			return
 		}
+		c.txBegin(x)
 		res := guarded(func() error { return live.AckSettleFails(refs...) })
 		c.emit("L %s op=acksf refs=%s => %s\n", name, strings.Join(rs, ","), res)
+		c.txEnd(x, "link_acksf", res)
 		c.stats["link_acksf"]++
 	}
+	// the durable state after the link operation = baseline for the crash
+	// images of the next call
+	c.probe(x)
 }
 
 // liveExtra prints the parts of the live node the C01 dump does not contain.
@@ -651,6 +917,7 @@ func (c *c02Ctx) reload(x int, mode string) bool {
 		return false
 	}
 	c.p.Ch[x] = lc
+	c.pendSrc[x], c.pendDst[x] = nil, nil
 	c.s.dump(x)
 	c.stats["reload_"+mode]++
 	return true
@@ -968,11 +1235,13 @@ func (c *c02Ctx) bogusRevocation(d int) {
 	}
 	c.probe(rcv) // current durable state = baseline of the "nothing persisted" comparison
 	res := "ok"
+	c.txBegin(rcv)
 	func() {
 		defer c01Recover(&res)
 		_, _, err := ch.ReceiveRevocation(&bad)
 		res = c02RevErr(err)
 	}()
+	c.txEnd(rcv, "recv_bogus", res)
 	var npb []byte
 	if bad.NextRevocationKey != nil {
 		npb = bad.NextRevocationKey.SerializeCompressed()
@@ -1010,7 +1279,7 @@ func (c *c02Ctx) deliver(d int, crashWindow bool) {
 		c.bogusRevocation(d)
 		return
 	}
-	res := s.runDeliver(d)
+	res := c.runDeliver(d)
 	c.after()
 	if c.stop || kind != "commitsig" || res != "ok" {
 		return
@@ -1024,7 +1293,7 @@ func (c *c02Ctx) deliver(d int, crashWindow bool) {
 		return
 	}
 	if s.p.Ch[x].commitChains.Local.hasUnackedCommitment() {
-		s.runAct(x, c01Act{Kind: "revoke"})
+		c.runAct(x, c01Act{Kind: "revoke"})
 		c.after()
 	}
 }
@@ -1059,7 +1328,7 @@ func (c *c02Ctx) step(maxAdds int) bool {
 						Expiry: c01Pick(r, uint32(100), 144, 144, 500),
 						HashID: s.p.newHash()}
 				}
-				if s.runAct(x, a) == "ok" {
+				if c.runAct(x, a) == "ok" {
 					s.adds[x]++
 					s.last = &a
 				}
@@ -1069,7 +1338,7 @@ func (c *c02Ctx) step(maxAdds int) bool {
 			add(3, func() {
 				idx := cand[r.Intn(len(cand))]
 				kind := c01Pick(r, "settle", "settle", "fail", "malformed", "malformed")
-				s.runAct(x, c01Act{Kind: kind, Idx: idx})
+				c.resolve(x, kind, idx)
 			})
 		}
 		if ch.channelState.IsInitiator {
@@ -1078,7 +1347,7 @@ func (c *c02Ctx) step(maxAdds int) bool {
 				if f < 253 {
 					f = 253 + chainfee.SatPerKWeight(r.Intn(50))
 				}
-				s.runAct(x, c01Act{Kind: "fee", FeePerKw: f})
+				c.runAct(x, c01Act{Kind: "fee", FeePerKw: f})
 			})
 		}
 		if ch.OweCommitment() {
@@ -1089,10 +1358,10 @@ func (c *c02Ctx) step(maxAdds int) bool {
 					w = 0
 				}
 			}
-			add(w, func() { s.runAct(x, c01Act{Kind: "sign"}) })
+			add(w, func() { c.runAct(x, c01Act{Kind: "sign"}) })
 		}
 		if ch.commitChains.Local.hasUnackedCommitment() {
-			add(1000, func() { s.runAct(x, c01Act{Kind: "revoke"}) })
+			add(1000, func() { c.runAct(x, c01Act{Kind: "revoke"}) })
 		}
 	}
 	if len(cs) == 0 {
@@ -1129,7 +1398,7 @@ func (c *c02Ctx) drain(resolve bool, reloads bool) {
 		}
 		for x := 0; x < 2; x++ {
 			if s.p.Ch[x].commitChains.Local.hasUnackedCommitment() {
-				s.runAct(x, c01Act{Kind: "revoke"})
+				c.runAct(x, c01Act{Kind: "revoke"})
 				c.after()
 				progress = true
 				if reloads {
@@ -1140,7 +1409,7 @@ func (c *c02Ctx) drain(resolve bool, reloads bool) {
 		for x := 0; x < 2 && !c.stop; x++ {
 			ch := s.p.Ch[x]
 			if ch.OweCommitment() && !ch.commitChains.Remote.hasUnackedCommitment() {
-				if s.runAct(x, c01Act{Kind: "sign"}) == "ok" {
+				if c.runAct(x, c01Act{Kind: "sign"}) == "ok" {
 					progress = true
 				}
 				c.after()
@@ -1152,7 +1421,7 @@ func (c *c02Ctx) drain(resolve bool, reloads bool) {
 		if !progress && resolve {
 			for x := 0; x < 2 && !c.stop; x++ {
 				for _, idx := range s.settleable(x) {
-					s.runAct(x, c01Act{Kind: c01Pick(s.r, "settle", "fail", "malformed"), Idx: idx})
+					c.resolve(x, c01Pick(s.r, "settle", "fail", "malformed"), idx)
 					c.after()
 					progress = true
 				}
@@ -1207,13 +1476,13 @@ func (c *c02Ctx) burst(rounds int, maxAdds int) {
 				if f < 253 {
 					f = 253 + chainfee.SatPerKWeight(r.Intn(50))
 				}
-				s.runAct(x, c01Act{Kind: "fee", FeePerKw: f})
+				c.runAct(x, c01Act{Kind: "fee", FeePerKw: f})
 			case len(cand) > 0 && r.Intn(2) == 0:
-				s.runAct(x, c01Act{Kind: c01Pick(r, "settle", "fail", "malformed"), Idx: cand[r.Intn(len(cand))]})
+				c.resolve(x, c01Pick(r, "settle", "fail", "malformed"), cand[r.Intn(len(cand))])
 			case s.adds[x] < maxAdds:
 				a := c01Act{Kind: "add", Amt: s.pickAmount(x), Expiry: c01Pick(r, uint32(100), 144, 500),
 					HashID: s.p.newHash()}
-				if s.runAct(x, a) == "ok" {
+				if c.runAct(x, a) == "ok" {
 					s.adds[x]++
 				}
 			default:
@@ -1227,7 +1496,7 @@ func (c *c02Ctx) burst(rounds int, maxAdds int) {
 		}
 		ch = s.p.Ch[x]
 		if ch.OweCommitment() && !ch.commitChains.Remote.hasUnackedCommitment() {
-			s.runAct(x, c01Act{Kind: "sign"})
+			c.runAct(x, c01Act{Kind: "sign"})
 			c.after()
 		}
 		boundary()
@@ -1237,7 +1506,7 @@ func (c *c02Ctx) burst(rounds int, maxAdds int) {
 		}
 		y := 1 - x
 		if s.p.Ch[y].commitChains.Local.hasUnackedCommitment() {
-			s.runAct(y, c01Act{Kind: "revoke"})
+			c.runAct(y, c01Act{Kind: "revoke"})
 			c.after()
 		}
 		boundary()
@@ -1250,11 +1519,11 @@ func (c *c02Ctx) burst(rounds int, maxAdds int) {
 			// the peer signs back, x acknowledges
 			chy := s.p.Ch[y]
 			if chy.OweCommitment() && !chy.commitChains.Remote.hasUnackedCommitment() {
-				s.runAct(y, c01Act{Kind: "sign"})
+				c.runAct(y, c01Act{Kind: "sign"})
 				c.after()
 				deliverAll(y)
 				if !c.stop && s.p.Ch[x].commitChains.Local.hasUnackedCommitment() {
-					s.runAct(x, c01Act{Kind: "revoke"})
+					c.runAct(x, c01Act{Kind: "revoke"})
 					c.after()
 					deliverAll(x)
 				}
@@ -1278,6 +1547,8 @@ func c02RunCase(t *testing.T, w *bufio.Writer, stats map[string]int, caseID int,
 	c := &c02Ctx{s: s, p: pair, w: w, r: r, stats: stats,
 		seenRev: map[*lnwire.RevokeAndAck]bool{}, seenSig: map[*CommitSigs]bool{},
 		taproot: p.ChanType.IsTaproot(), pProbe: pProbe, pBogus: 5}
+	c.wrapDB(t, 0)
+	c.wrapDB(t, 1)
 	lazy := r.Intn(3)
 	for x := 0; x < 2; x++ {
 		c.wSign[x], c.wRevoke[x], c.wDeliver[x] = 4, 8, 4
